@@ -14,7 +14,8 @@ RULE = ("Each run = one request on a fresh protocol/inverter object (optionally 
         "a fault script that assigns one symbol of the 13-symbol alphabet {drop, now, in_time, late, garbage, short, "
         "badsum, exc, frag, lonefrag, dup, peer_close, senderr} (with timing variants just-before/at/just-after the "
         "timeout) to each transmission and a connect outcome {ok, refused, unreach, hang} to each TCP connect.  "
-        "Systematic part: ALL scripts up to the tier's depth x {udp,tcp} x keep-alive x 3 (timeout,retries) settings "
+        "The seeded part additionally uses two compound symbols (garbage directly followed by another delivery for the "
+        "same transmission; a prompt answer followed by a stray piece later).  Systematic part: ALL scripts up to the tier's depth x {udp,tcp} x keep-alive x 3 (timeout,retries) settings "
         "x 4 TCP connect patterns; then seeded random scripts up to length 8.  A run is non-trivial when at least "
         "one fault fired; distinct = distinct abstract trace (transport, keep-alive, retries, per-transmission "
         "(fault kind, delay bucket <tau/=tau/>tau), connect outcomes, outcome, number of transmissions).")
@@ -98,7 +99,10 @@ def symbol_fault(sym, transport, tau, rnd):
             return {"k": "mut", "ops": [["add", 8, rnd.choice([1, 2, 255])]], "d": small}  # wrong byte count
         return {"k": "mut", "ops": [["add", -1, rnd.choice([1, 255])]], "d": small}
     if sym == "exc":
-        return {"k": "exc", "code": rnd.choice([1, 2, 3, 4, 6, 11, 99]), "d": rnd.choice([small, tau / 2])}
+        f = {"k": "exc", "code": rnd.choice([1, 2, 3, 4, 6, 11, 99]), "d": rnd.choice([small, tau / 2])}
+        if rnd.random() < 0.3:   # the exception frame arrives twice (duplicate / retransmitted segment)
+            f["again"] = f["d"] + rnd.choice([small, tau / 4, tau])
+        return f
     if sym == "frag":
         return {"k": "frag", "s": rnd.choice([5, 7, 9, 10, 12]), "d1": small,
                 "d2": rnd.choice([small, tau / 2, tau - EPS, tau, tau + tau / 2])}
@@ -119,7 +123,23 @@ def symbol_fault(sym, transport, tau, rnd):
         return {"k": "drop", "then": [{"ev": "icmp", "d": d, "errno": 111}]}
     if sym == "senderr":
         return {"k": "senderr", "errno": rnd.choice([111, 101, 113, 104, 1])}
+    if sym == "garbage_then":
+        # two deliveries for one transmission: garbage right before an answer / exception frame / more garbage
+        d1 = rnd.choice([small, tau / 2])
+        nxt = rnd.choice([{"what": "ans"}, {"what": "exc", "code": rnd.choice([2, 4, 6])},
+                          {"what": "garbage", "n": 12, "seed": rnd.randrange(1 << 16)}, {"what": "prefix", "s": 7}])
+        nxt["d"] = d1 + rnd.choice([0.0, small, tau / 4])
+        return {"k": "multi", "parts": [{"what": "garbage", "n": rnd.choice([3, 12]), "seed": rnd.randrange(1 << 16), "d": d1}, nxt]}
+    if sym == "stray_after":
+        # a prompt answer, and a stray piece (first fragment / whole answer / exception frame) later on
+        what = rnd.choice([{"what": "prefix", "s": rnd.choice([5, 7, 9, 10])}, {"what": "ans"},
+                           {"what": "exc", "code": 4}, {"what": "garbage", "n": 9, "seed": 5}])
+        ev = dict(what, ev="data", d=rnd.choice([2 * small, tau / 2, tau, 3 * tau]))
+        return {"k": "ok", "d": small, "then": [ev]}
     raise ValueError(sym)
+
+
+EXTRA_SYMBOLS = ["garbage_then", "stray_after"]
 
 
 def connect_outcome(kind, rnd):
@@ -156,7 +176,7 @@ def make_case(tier, seed, index):
         tau = rnd.choice([0.25, 0.5, 1.0, 2.0])
         r = rnd.choice([0, 1, 2, 3])
         # swarm: enabled subset of symbols, density
-        enabled = [s for s in SYMBOLS if rnd.random() < 0.5] or ["drop"]
+        enabled = [s for s in SYMBOLS + EXTRA_SYMBOLS if rnd.random() < 0.5] or ["drop"]
         n = rnd.randint(1, 8)
         density = rnd.choice([0.3, 0.6, 1.0])
         script = [rnd.choice(enabled) if rnd.random() < density else "now" for _ in range(n)]
